@@ -290,7 +290,7 @@ pub fn baseline(seed: u64, opts: &GenOpts) -> (SupplyTrace, Plan) {
     let mut r = Rng::stream(seed, "world");
     let mut kr = Rng::stream(seed, "keys");
     let ed_only = r.chance(opts.ed_only_pct, 100);
-    let n_owner = 1 + r.weighted(&[60, 30, 10]);
+    let n_owner = 1 + r.weighted(&[45, 40, 15]);
     let n_func = 1 + r.idx(5);
     let n_out = r.idx(3);
     let mut keys = keys::draw_keys(&mut kr, n_owner + n_func + n_out, ed_only, opts.allow_rsa);
@@ -325,6 +325,7 @@ pub fn baseline(seed: u64, opts: &GenOpts) -> (SupplyTrace, Plan) {
         file_faults: vec![],
         labels: vec![],
         work_files: vec![],
+        caller_json_alias: vec![],
     };
     (t, Plan { owners, funcs, outsiders, now: now.min(exp) })
 }
@@ -338,6 +339,9 @@ pub enum F {
     LForged,
     LCorrupt,
     LEdit,
+    LSigDup,
+    Misattributed,
+    CallerJsonAlias,
     CallerEmpty,
     CallerSuperset,
     CallerDisjoint,
@@ -378,6 +382,9 @@ pub fn fname(f: F) -> &'static str {
         F::LForged => "L-FORGED",
         F::LCorrupt => "L-CORRUPT",
         F::LEdit => "L-EDIT",
+        F::LSigDup => "L-SIGDUP",
+        F::Misattributed => "MISATTRIBUTED",
+        F::CallerJsonAlias => "CALLER-JSON-ALIAS",
         F::CallerEmpty => "CALLER-EMPTY",
         F::CallerSuperset => "CALLER-SUPERSET",
         F::CallerDisjoint => "CALLER-DISJOINT",
@@ -434,6 +441,32 @@ pub fn leaves(v: &Value, prefix: &str, out: &mut Vec<(String, Value)>) {
             }
         }
         _ => out.push((prefix.to_string(), v.clone())),
+    }
+}
+
+/// Pointers to every object member and array element that is itself a container (not a leaf).
+pub fn containers(v: &Value, prefix: &str, out: &mut Vec<String>) {
+    match v {
+        Value::Object(m) => {
+            for (k, x) in m {
+                let esc = k.replace('~', "~0").replace('/', "~1");
+                let p = format!("{}/{}", prefix, esc);
+                if x.is_object() || x.is_array() {
+                    out.push(p.clone());
+                }
+                containers(x, &p, out);
+            }
+        }
+        Value::Array(a) => {
+            for (i, x) in a.iter().enumerate() {
+                let p = format!("{}/{}", prefix, i);
+                if x.is_object() || x.is_array() {
+                    out.push(p.clone());
+                }
+                containers(x, &p, out);
+            }
+        }
+        _ => {}
     }
 }
 
@@ -547,6 +580,70 @@ pub fn apply_fault(t: &mut SupplyTrace, plan: &Plan, f: F, r: &mut Rng, prefer_s
             t.root.doc.signers.push(x);
             t.root.doc.ops.push(DocOp::SigValueFrom { at, from: n });
             t.root.doc.ops.push(DocOp::SigStrip(n));
+        }
+        F::LSigDup => {
+            // one owner's valid signature listed twice while another trusted owner has not signed:
+            // the number of signature entries still equals the number of trusted keys
+            let n = t.root.doc.signers.len();
+            if n < 2 {
+                return false;
+            }
+            let gone = r.idx(n);
+            t.root.doc.signers.remove(gone);
+            let keep = r.idx(n - 1);
+            t.root.doc.ops.push(DocOp::SigDup(keep));
+            if r.chance(1, 2) {
+                t.root.doc.ops.push(DocOp::SigShuffle(r.next()));
+            }
+        }
+        F::CallerJsonAlias => {
+            // the same key material passed twice, the second time as a key object deserialized from
+            // JSON that carries another key's id in its "keyid" member
+            if t.caller.is_empty() {
+                return false;
+            }
+            let (_, m) = t.caller[r.idx(t.caller.len())];
+            let other = new_key(&mut t.keys, r, ed_only, true);
+            if t.caller.len() > 1 && r.chance(1, 2) {
+                let j = t.caller.iter().position(|c| c.1 != m).unwrap_or(0);
+                t.caller.remove(j);
+            }
+            t.caller.push((other, m));
+            t.caller_json_alias.push(t.caller.len() - 1);
+        }
+        F::Misattributed => {
+            // a link filed under A's prefix that carries a worthless entry labelled A and a valid
+            // signature by B, who is authorized for the same step and also files his own link
+            let (lv, is_sub) = pick_level(&mut t.root, r, prefer_sub);
+            if prefer_sub && !is_sub {
+                return false;
+            }
+            if lv.layout.steps.is_empty() {
+                return false;
+            }
+            let si = r.idx(lv.layout.steps.len());
+            let sname = lv.layout.steps[si].name.clone();
+            let fs: Vec<usize> = step_files(lv, &sname).into_iter().filter(|i| matches!(lv.files[*i].body, Body::Link(_))).collect();
+            if fs.len() < 2 {
+                return false;
+            }
+            let need = lv.layout.steps[si].threshold.max(1) as usize;
+            // make the genuine count fall below the threshold: all but (need-1) files become misattributed copies
+            let b_file = fs[0];
+            let b = match lv.files[b_file].doc.signers.first() {
+                Some(b) => *b,
+                None => return false,
+            };
+            let n_bad = (fs.len() + 1).saturating_sub(need).max(1).min(fs.len() - 1);
+            for fi in fs.iter().skip(1).take(n_bad) {
+                let a = match lv.files[*fi].doc.signers.first() {
+                    Some(a) => *a,
+                    None => continue,
+                };
+                let order = r.chance(1, 2);
+                lv.files[*fi].doc.signers = if order { vec![a, b] } else { vec![b, a] };
+                lv.files[*fi].doc.ops.push(DocOp::SigFlip { at: if order { 0 } else { 1 }, bit: r.idx(256) });
+            }
         }
         F::LCorrupt => {
             let n = t.root.doc.signers.len();
